@@ -9,7 +9,7 @@ from vlib.workers import ALL, WorkerDied, WorkerSet
 
 PROPERTY = "C12"
 LEVEL = "exploration"
-RULE = ("(i) wrapper towers of depth 0..6 over {functools.partial (positional / keyword), functools.wraps wrapper, "
+RULE = ("(A third of the nestings define every nested name twice in its scope, a stub first - the overload pattern: the name resolves to the last definition, the one that runs.) (i) wrapper towers of depth 0..6 over {functools.partial (positional / keyword), functools.wraps wrapper, "
         "update_wrapper'd lambda, bound method, classmethod reached through class / instance attribute, staticmethod attribute} "
         "with optionally a raw classmethod / staticmethod object on top; the base function records the code object that "
         "actually executes when the tower is called: get_code(tower) must be that very object and a hook registered through "
@@ -48,6 +48,9 @@ def nestings(draw):
     # PEP 695 (3.12+): `def n[T](...)` / `class n[T]:` - the compiler wraps each in a scope of its own
     generic = draw(st.sampled_from([False, False, True]))
     tp = "[T]" if generic else ""
+    # every nested name is defined twice in its scope (typing.overload stubs followed by the implementation; a conditional
+    # redefinition): calling / looking up the name gives the LAST definition, which is the code that runs
+    redefined = draw(st.sampled_from([False, False, True]))
     lines = ["def top():"]
     ind = 1
     getter = "top()"
@@ -60,6 +63,11 @@ def nestings(draw):
             # siblings whose names merely resemble the wanted one (longer / shorter), defined first
             lines.append("    " * ind + "def %sx(): return %d" % (n, i))
             lines.append("    " * ind + "def %s(): return %d" % (n[:-1], i))
+        if redefined:
+            if k == "def":
+                lines.append("    " * ind + "def %s%s(*a): return 'stub %d'" % (n, tp, i))
+            else:
+                lines.append("    " * ind + "class %s%s: stub = %d" % (n, tp, i))
         if k == "def":
             lines.append("    " * ind + "def %s%s(*a):" % (n, tp))
         else:
@@ -87,7 +95,7 @@ def nestings(draw):
             expr = "%s()" % expr          # call the function -> returns names[i]
         else:
             expr = "%s.%s" % (expr, names[i])   # class attribute
-    return {"src": "\n".join(lines) + "\n", "path": names, "getter": expr, "kinds": kinds + (["captured_by_sibling"] if captured else []) + (["pep695_generic"] if generic else [])}
+    return {"src": "\n".join(lines) + "\n", "path": names, "getter": expr, "kinds": kinds + (["captured_by_sibling"] if captured else []) + (["pep695_generic"] if generic else []) + (["name_defined_twice"] if redefined else [])}
 
 
 def registry_ops():
